@@ -827,6 +827,157 @@ func paramPointeeWrites(p *pkg, prefix string) (out [][2]string) {
 	return
 }
 
+// ---- package-level state: assignments to package-level variables outside init() and var initialisers ----
+//
+// For packages mail, smtp and log: the names declared by top-level `var` declarations, and every assignment
+// (=, op=, ++/--) in a function body whose left-hand side is rooted at such a name, classified as
+//
+//	once    inside a function literal passed to a call x.Do(...) (sync.Once)
+//	locked  after a x.Lock() call in the same function body (textual order)
+//	unsync  anything else (atomics are method calls, not assignments, and do not appear here)
+//
+// A local variable shadowing a package-level name is NOT recognised (no type checker): it would be listed too.
+func pkgVarWrites(p *pkg, prefix string) (out [][3]string) {
+	vars := map[string]bool{}
+	var fnames []string
+	for fn := range p.files {
+		fnames = append(fnames, fn)
+	}
+	sort.Strings(fnames)
+	for _, fn := range fnames {
+		for _, d := range p.files[fn].Decls {
+			if gd, ok := d.(*ast.GenDecl); ok && gd.Tok == token.VAR {
+				for _, sp := range gd.Specs {
+					for _, id := range sp.(*ast.ValueSpec).Names {
+						if id.Name != "_" {
+							vars[id.Name] = true
+						}
+					}
+				}
+			}
+		}
+	}
+	var names []string
+	for n := range p.funcs {
+		names = append(names, n)
+	}
+	sort.Strings(names)
+	for _, n := range names {
+		decl := p.funcs[n]
+		if decl.Body == nil || (n == "init" && decl.Recv == nil) {
+			continue
+		}
+		// names bound locally (parameters, receivers, :=, var) shadow the package-level ones
+		local := map[string]bool{}
+		if decl.Recv != nil {
+			for _, f := range decl.Recv.List {
+				for _, id := range f.Names {
+					local[id.Name] = true
+				}
+			}
+		}
+		if decl.Type.Params != nil {
+			for _, f := range decl.Type.Params.List {
+				for _, id := range f.Names {
+					local[id.Name] = true
+				}
+			}
+		}
+		if decl.Type.Results != nil {
+			for _, f := range decl.Type.Results.List {
+				for _, id := range f.Names {
+					local[id.Name] = true
+				}
+			}
+		}
+		ast.Inspect(decl.Body, func(x ast.Node) bool {
+			switch t := x.(type) {
+			case *ast.AssignStmt:
+				if t.Tok == token.DEFINE {
+					for _, l := range t.Lhs {
+						if id, ok := l.(*ast.Ident); ok {
+							local[id.Name] = true
+						}
+					}
+				}
+			case *ast.ValueSpec:
+				for _, id := range t.Names {
+					local[id.Name] = true
+				}
+			case *ast.RangeStmt:
+				if t.Tok == token.DEFINE {
+					for _, e := range []ast.Expr{t.Key, t.Value} {
+						if id, ok := e.(*ast.Ident); ok {
+							local[id.Name] = true
+						}
+					}
+				}
+			}
+			return true
+		})
+		var lockPos token.Pos
+		ast.Inspect(decl.Body, func(x ast.Node) bool {
+			if ce, ok := x.(*ast.CallExpr); ok {
+				if sel, ok := ce.Fun.(*ast.SelectorExpr); ok && (sel.Sel.Name == "Lock") && len(ce.Args) == 0 {
+					if lockPos == 0 || ce.Pos() < lockPos {
+						lockPos = ce.Pos()
+					}
+				}
+			}
+			return true
+		})
+		seen := map[string]bool{}
+		var stack []ast.Node
+		check := func(l ast.Expr) {
+			id, _ := lkRootIdent(l)
+			if id == nil || !vars[id.Name] || local[id.Name] {
+				return
+			}
+			class := "unsync"
+			for i := len(stack) - 1; i >= 1; i-- {
+				if fl, ok := stack[i].(*ast.FuncLit); ok {
+					if ce, ok := stack[i-1].(*ast.CallExpr); ok {
+						if sel, ok := ce.Fun.(*ast.SelectorExpr); ok && sel.Sel.Name == "Do" {
+							for _, a := range ce.Args {
+								if a == ast.Expr(fl) {
+									class = "once"
+								}
+							}
+						}
+					}
+				}
+			}
+			if class == "unsync" && lockPos != 0 && lockPos < l.Pos() {
+				class = "locked"
+			}
+			k := id.Name + "|" + class
+			if !seen[k] {
+				seen[k] = true
+				out = append(out, [3]string{prefix + n, prefix + id.Name, class})
+			}
+		}
+		ast.Inspect(decl.Body, func(x ast.Node) bool {
+			if x == nil {
+				stack = stack[:len(stack)-1]
+				return true
+			}
+			stack = append(stack, x)
+			switch t := x.(type) {
+			case *ast.AssignStmt:
+				if t.Tok != token.DEFINE {
+					for _, l := range t.Lhs {
+						check(l)
+					}
+				}
+			case *ast.IncDecStmt:
+				check(t.X)
+			}
+			return true
+		})
+	}
+	return
+}
+
 func init() {
 	extras = append(extras, func(p, sp *pkg) {
 		type item struct {
@@ -912,6 +1063,15 @@ func init() {
 		for _, w := range logWrites {
 			em.ident(w[0])
 			em.ident(w[1])
+		}
+		pvw := append(pkgVarWrites(p, ""), pkgVarWrites(sp, "smtp:")...)
+		if len(os.Args) > 1 {
+			pvw = append(pvw, pkgVarWrites(load(filepath.Join(os.Args[1], "log")), "log:")...)
+		}
+		for _, w := range pvw {
+			em.ident(w[0])
+			em.ident(w[1])
+			em.ident(w[2])
 		}
 		for _, w := range ppw {
 			em.ident(w[0])
@@ -1019,6 +1179,15 @@ func init() {
 				emit(";\n   ")
 			}
 			emit("(%s, %s)", em.names[w[0]], em.names[w[1]])
+		}
+		emit("].\n")
+		emit("(* assignments to package-level variables of packages mail, smtp and log in function bodies other than init():\n   (function, variable, once | locked | unsync) *)\n")
+		emit("Definition package_var_writes : list (list N * list N * list N) :=\n  [")
+		for i, w := range pvw {
+			if i > 0 {
+				emit(";\n   ")
+			}
+			emit("(%s, %s, %s)", em.names[w[0]], em.names[w[1]], em.names[w[2]])
 		}
 		emit("].\n")
 		emit("(* package log: fields of a logger written by its own methods (method, field) *)\n")
